@@ -462,6 +462,55 @@ impl CWorld {
 
 /// mode: "race" (C09: add/get/snapshot calls of 2-4 clients interleaved), "cleanup" (C10: with
 /// cleanup runs, old objects and cleanups that stop), "fault" (C11: one request fails)
+/// directed three-party schedules around one parent: a writer that has uploaded its object but
+/// not yet swapped, a reader of the same parent that has listed the children, and a second
+/// writer that commits in between; the numbers of steps before each hand-over are random
+pub fn gen_reader(seed: u64, id: usize) -> CaseOut {
+    let mut rng = Rng::new(seed ^ (id as u64).wrapping_mul(0xB5297A4D3F84D5B5) ^ 0x9ead);
+    let page = rng.range(1, 3);
+    let mut w = CWorld::new(3, page);
+    let mut script = vec![];
+    let mut next_payload = 1usize;
+    for _ in 0..rng.range(1, 3) {
+        let parent = w.latest().unwrap_or(0);
+        w.start(0, Call::Add(parent, next_payload));
+        script.push(json!(format!("prefix: client 0 add_version(parent {parent}, payload {next_payload})")));
+        next_payload += 1;
+        while w.in_flight(0) {
+            w.step(0, GateCmd::Proceed, NEW);
+        }
+    }
+    let p = w.latest().unwrap_or(0);
+    // who reads: usually the contested parent, sometimes an earlier version
+    let rp = if rng.chance(80) || w.hist.len() < 2 { p } else { w.hist[rng.below(w.hist.len() - 1)] };
+    let calls = [Call::Add(p, next_payload), Call::Get(rp), Call::Add(p, next_payload + 1)];
+    for (i, c) in calls.iter().enumerate() {
+        script.push(json!(format!("client {i} starts {:?}", c)));
+        w.start(i, c.clone());
+    }
+    // phases: (client, number of steps; usize::MAX = to completion)
+    let a = rng.range(1, 3);
+    let r = rng.below(3);
+    let b = if rng.chance(75) { usize::MAX } else { rng.range(1, 3) };
+    let mut phases = vec![(0usize, a), (1, r), (2, b), (1, if rng.chance(70) { usize::MAX } else { rng.range(1, 2) }), (0, usize::MAX), (1, usize::MAX), (2, usize::MAX)];
+    if rng.chance(25) {
+        phases.swap(0, 1);
+    }
+    for (i, k) in phases {
+        let mut done = 0;
+        while w.in_flight(i) && done < k {
+            let req = w.pending(i);
+            script.push(json!(format!("client {i}: {:?} -> Proceed", req)));
+            w.step(i, GateCmd::Proceed, NEW);
+            done += 1;
+        }
+    }
+    if w.feats.get("rejections").copied().unwrap_or(0) > 0 {
+        w.feat("cases_with_rejection");
+    }
+    w.finish(seed, id, "cloud-reader", page, script, true)
+}
+
 pub fn gen_cloud(seed: u64, id: usize, mode: &str) -> CaseOut {
     let mut rng = Rng::new(seed ^ (id as u64).wrapping_mul(0xF1357AEA2E62A9C5) ^ (mode.len() as u64) << 32);
     let n = rng.range(2, if mode == "race" { 4 } else { 3 });
